@@ -47,6 +47,9 @@ pub struct Scn {
     /// kind of delay setting is made first (the last call wins)
     #[serde(default)]
     pub order: u8,
+    /// the service is built while another (never driven) runtime's context is entered
+    #[serde(default)]
+    pub built_elsewhere: bool,
 }
 
 /// Many attempts whose outcomes arrive together (more than any small internal queue holds).
@@ -74,6 +77,7 @@ fn gen_many(rng: &mut Rng) -> Scn {
         clone_warmup_ms: 0,
         knobs: SchedKnobs::gen(rng, false, 60),
         order: rng.below(4) as u8,
+        built_elsewhere: false,
     }
 }
 
@@ -94,7 +98,7 @@ fn gen_unbounded(rng: &mut Rng) -> Scn {
             Call { start_ms: *rng.pick(&[0u64, 5]), attempts }
         })
         .collect();
-    Scn { max: u32::MAX, delay, calls, clone_warmup_ms: 0, knobs: SchedKnobs::gen(rng, false, 60), order: rng.below(4) as u8 }
+    Scn { max: u32::MAX, delay, calls, clone_warmup_ms: 0, knobs: SchedKnobs::gen(rng, false, 60), order: rng.below(4) as u8, built_elsewhere: false }
 }
 
 fn gen_phased(rng: &mut Rng) -> Scn {
@@ -104,7 +108,7 @@ fn gen_phased(rng: &mut Rng) -> Scn {
     let (before, after) = if rng.chance(1, 2) { (before, after) } else { (after, before) };
     let slow = |rng: &mut Rng| Behaviour { lat_ms: *rng.pick(&[200u64, 200, 30]), out: if rng.chance(2, 3) { Outcome::Ok } else { Outcome::Err(0) }, yields: 0 };
     let calls = vec![Call { start_ms: 0, attempts: (0..max).map(|_| slow(rng)).collect() }, Call { start_ms: 500, attempts: (0..max).map(|_| slow(rng)).collect() }];
-    Scn { max, delay: Delay::Phased { before, after, switch_ms: 400 }, calls, clone_warmup_ms: 0, knobs: SchedKnobs::gen(rng, false, 60), order: rng.below(2) as u8 }
+    Scn { max, delay: Delay::Phased { before, after, switch_ms: 400 }, calls, clone_warmup_ms: 0, knobs: SchedKnobs::gen(rng, false, 60), order: rng.below(2) as u8, built_elsewhere: false }
 }
 
 pub fn gen(rng: &mut Rng) -> Scn {
@@ -158,6 +162,7 @@ pub fn gen(rng: &mut Rng) -> Scn {
         clone_warmup_ms: if rng.chance(1, 4) { *rng.pick(&[5u64, 30, 200]) } else { 0 },
         knobs: SchedKnobs::gen(rng, true, 60),
         order: if rng.chance(1, 2) { rng.below(4) as u8 } else { 0 },
+        built_elsewhere: rng.chance(1, 8),
     }
 }
 
@@ -258,7 +263,7 @@ pub fn run(s: &Scn, ctx: &mut RunCtx) -> RunOutput {
             b = b.max_hedged_attempts(count(scn.max));
         }
         let layer = b.build();
-        let base = layer.layer(SimInner::new(0));
+        let base = if scn.built_elsewhere { built_in_foreign_runtime(|| layer.layer(SimInner::new(0))) } else { layer.layer(SimInner::new(0)) };
         let mut defs = vec![];
         for (i, c) in scn.calls.iter().enumerate() {
             let svc = base.clone();
@@ -284,6 +289,7 @@ pub fn run(s: &Scn, ctx: &mut RunCtx) -> RunOutput {
     let mut step = |_k| {};
     let mut idle = || {};
     let rep = run_sim(cfg, &mut ctx.chooser, setup, Hooks { step: &mut step, idle: &mut idle });
+    drop_foreign_runtime();
     let log = world::with(|w| std::mem::take(&mut w.log));
     let calls = inner_calls(&log);
     let jump = s.knobs.total_jump() * 1000;
@@ -448,7 +454,7 @@ impl Prop for C12 {
         }
     }
     fn nontrivial_rule(&self) -> &'static str {
-        "scenario = max_hedged_attempts 1..4 (17-24 attempts completing together in one run of twelve; usize::MAX with eventually succeeding scripts), delay fixed (ms or sub-ms) / zero / immediate / Duration::MAX / per-attempt table (entries may be zero), builder calls in either order with a decoy delay setting, clones that need a warm-up, 1-3 concurrent hedged calls, per-attempt (latency, ok|error) vectors from a lattice that makes failures land before/at/after the next hedge instant, clock jumps; the library's spawned attempt tasks run on tokio's FIFO queue, perturbed by seeded yields. Non-trivial: at least two attempts were started for some call. Distinct = distinct event-log digest."
+        "scenario = max_hedged_attempts 1..4 (17-24 attempts completing together in one run of twelve; usize::MAX with eventually succeeding scripts), delay fixed (ms or sub-ms) / zero / immediate / Duration::MAX / per-attempt table (entries may be zero), builder calls in either order with a decoy delay setting, clones that need a warm-up, service built inside another runtime's context, 1-3 concurrent hedged calls, per-attempt (latency, ok|error) vectors from a lattice that makes failures land before/at/after the next hedge instant, clock jumps; the library's spawned attempt tasks run on tokio's FIFO queue, perturbed by seeded yields. Non-trivial: at least two attempts were started for some call. Distinct = distinct event-log digest."
     }
     fn real_components(&self) -> Vec<&'static str> {
         vec!["tower-resilience-hedge (Hedge, HedgeLayer builder, execute_with_hedging)", "tokio::spawn, mpsc, select!, sleep on the paused clock"]
